@@ -200,4 +200,5 @@ Safety ==
   /\ OnlyVotersLead /\ NonVotingWitnessRoles /\ WitnessNoPayload /\ WitnessLogMeta
   /\ ReadIndexSafe /\ ReadIndexRespSafe
   /\ OneCCAtATime /\ RemovedNeverReadmitted /\ KindsDisjoint /\ MembershipHasVoter /\ KindOnlyPromotes
+  /\ CheckQuorumLease
 =============================================================================
